@@ -12,7 +12,8 @@ META = dict(
     "(every pair-verify exception class, peer close at M1/M3, HTTP 4xx, garbage, busy), peer-initiated close of the current connection and of every earlier one at "
     "every later point, close()/shutdown() at every point; oracle at every quiescent state: open connections <= 1, the open one is the current one when "
     "connected, failed/superseded connections are closed by the controller, close() never raises and leaves none open, loss of an abandoned connection "
-    "changes neither is_connected nor the current transport shutdown() is final: nothing may be open at any quiescent state after it, whatever announcements or callers arrive later (shutdown preludes); further configurations under other read-cutting / block-size / HTTP-spelling environments.",
+    "changes neither is_connected nor the current transport shutdown() is final: nothing may be open at any quiescent state after it, whatever announcements or callers arrive later (shutdown preludes); further configurations under other read-cutting / block-size / HTTP-spelling environments. BLE leg (c11_ble.py): depth-bounded exhaustive histories over {use, a second use while the first is in flight, GATT operations held in flight and released, peer drop, failing connection attempt, failing GATT disconnect, close, shutdown} on a real BlePairing: "
+    "at most one GATT connection open at any moment, none after shutdown() or after a close() that no operation outlived, close()/shutdown() complete without raising.",
     note="bounded by deviations d and horizon as reported; accessory never closes a connection on its own unless the explorer says so (worst case for leaks)",
     design_ref="DESIGN.md §4 C11",
     rule="state = canonical (timers, connector frame locals, flags, open conns per side); transition = one environment choice; execution = run to horizon",
@@ -36,6 +37,9 @@ def case_explore(p):
 
 
 CASES = {"explore": case_explore}
+from vt.props import c11_ble as _c11_ble  # noqa: E402
+
+CASES.update(_c11_ble.CASES)
 
 
 def _work(item, seed, tier):
@@ -67,6 +71,15 @@ def plan(ctx, configs):
                 for alt in range(1, len(m)):
                     work.append((p, tuple([0] * i + [alt]), d))
     return work
+
+
+def _work_ble(item, seed, tier):
+    from vt.props import c11_ble
+
+    acc = core.Acc()
+    p, root, depth = item
+    explore.explore(lambda: c11_ble.BleConnH(p), acc, depth=depth, case="ble_conn", params=p, root=root, prune=True, finish=True)
+    return acc
 
 
 def run(ctx):
@@ -118,6 +131,15 @@ def run(ctx):
             (dict(hosts=["10.0.0.1"], rounds=5, triggers=["zc-same", "ensure", "close"], behaviours=["ok"], damage=("AccessoryLTPK", "missing")), 2),
             (dict(hosts=["10.0.0.1"], rounds=5, subscriptions=True, triggers=["close", "shutdown", "close+rst", "shutdown+rst", "drop+close", "zc-same", "ensure"], behaviours=["ok", "ok-reset-on-unsubscribe", "ok-close-on-unsubscribe", "ok-mute-on-unsubscribe", "auth-error"], preemptive_triggers=False), 3),
         ]
+    # BLE: the GATT connection of a BlePairing (c11_ble.py)
+    from vt.props import c11_ble
+
+    bw = []
+    for bp, d in ((dict(), 6 if quick else 8), (dict(prelude=["use", "drop"], alphabet=["use", "use2", "hold", "release", "drop", "close", "shutdown", "disconnect-fails"]), 5 if quick else 7)):
+        bp = dict(bp, seed=ctx.seed)
+        bw += [(bp, r, d) for r in explore.roots(lambda: c11_ble.BleConnH(bp), 2)]
+    ctx.pmap(_work_ble, bw)
+    ctx.bounds.update(ble_leg=dict(alphabet=c11_ble.ALPH, depth=6 if quick else 8))
     work = plan(ctx, configs)
     ctx.bounds.update(configs=[dict(hosts=c["hosts"], rounds=c["rounds"], deviations=d) for c, d in configs])
     ctx.pmap(_work, work)
